@@ -74,6 +74,12 @@ int main(){
             std::vector<cell_ptr> cells = build_cells(t, true);
             out_dir = std::string("/verif/.cache/tmp/run_") + tag + "_" + std::to_string(getpid());
             std::filesystem::remove_all(out_dir);
+            // VERIF_STALE_FILES: the output folder already holds the files of an earlier, longer run (numbers 901..903 and a statistics file)
+            if (std::getenv("VERIF_STALE_FILES")){
+                std::filesystem::create_directories(out_dir + "/cell_data"); std::filesystem::create_directories(out_dir + "/face_data");
+                for (int n = 901; n <= 903; n++){ std::ofstream(out_dir + "/cell_data/result_" + std::to_string(n) + ".vtk") << "# vtk DataFile Version 2.0\nstale\n"; std::ofstream(out_dir + "/face_data/result_" + std::to_string(n) + ".vtk") << "# vtk DataFile Version 2.0\nstale\n"; }
+                std::ofstream(out_dir + "/simulation_statistics.csv") << "stale\n";
+            }
             t.sp.output_folder_path_ = out_dir;
             rsolver s(t.sp, cells, threads, string_stats != 0, false);
             s.evs = evs;
